@@ -35,8 +35,31 @@ def run_config(chk, cfg, own_kinds, *, max_replay=None, variant="eager", min_dep
     if not res.completed:
         tail = "\n".join(l for l in res.stdout.splitlines()[-40:])
         if res.invariant_violated:
-            # Impl |/= Contract inside the model: report with TLC's counterexample (design-level finding)
-            raise MachineryError(f"TLC: invariant {res.invariant_violated} violated in {cfg} - the Impl model contradicts the Contract:\n{tail}")
+            # Impl |/= Contract inside the model. DESIGN.md 2.3: this is a verdict only if the counterexample replays on the
+            # real code (the real code does what the Impl model says, and the Contract rejects it); otherwise the model is stale.
+            from .tlaval import parse_error_trace
+            from .gfireplay import Replayer, op_key
+            trace = parse_error_trace(res.stdout, only={"prog", "hist", "n"})
+            if not trace:
+                raise MachineryError(f"TLC: invariant {res.invariant_violated} violated in {cfg} but no counterexample could be parsed:\n{tail}")
+            last = trace[-1]
+            rp = Replayer(_StubChk(chk.seed), export_gf(), variant="eager", check_roundtrip=False)
+            hist = list(last["hist"])
+            allbad = []
+            for i in range(1, len(hist) + 1):
+                _, bad = rp.replay_state(last["prog"], hist[:i])
+                allbad += bad
+            key = f"tlc-counterexample|{res.invariant_violated}|prog={last['prog']}|" + op_key(hist)
+            if os.path.exists(dump + ".dump"):
+                os.remove(dump + ".dump")
+            tlc.cleanup(res)
+            if allbad:
+                raise MachineryError(f"TLC counterexample to {res.invariant_violated} does not reproduce on the real code (stale Impl model): {allbad[:3]}")
+            chk.add_tlc(res, (label or cfg) + " [invariant violated]")
+            chk.case(key)
+            chk.violation(key, f"TLC: the behaviour violates {res.invariant_violated} and the real code reproduces it step by step "
+                               f"(choices, scores, weights as in the counterexample)", {"program": last["prog"], "history": [_slim(o) for o in hist]})
+            return {"states": 0, "bad": 1, "tlc_counterexample": True}
         raise MachineryError(f"TLC failed on {cfg}:\n{tail}")
     chk.add_tlc(res, label or cfg)
     gfj = tlc.load_json(res, "gf.json")
